@@ -26,11 +26,14 @@ import (
 
 // Script is what the parent hands to the child.
 type Script struct {
-	DB      string
-	Ack     string
-	OpsLog  string
-	Logs    []struct{ ID, Origin, Vkey string }
-	Skeys   []struct{ Skey string; CosigV1 bool }
+	DB     string
+	Ack    string
+	OpsLog string
+	Logs   []struct{ ID, Origin, Vkey string }
+	Skeys  []struct {
+		Skey    string
+		CosigV1 bool
+	}
 	Updates []struct {
 		ID    int
 		LogID string
